@@ -128,7 +128,7 @@ def subsets_for(idx, mode):
     subs = [()] + [(p,) for p in ALLP] + [ALLP]
     pairs = list(itertools.combinations(ALLP, 2))
     if mode == "rotating":
-        k = 4
+        k = 3
         subs += [pairs[(idx * k + j) % len(pairs)] for j in range(k)]
     elif mode == "pairs":
         subs += pairs
@@ -173,7 +173,7 @@ def plans(tier, seed):
         a = [(i, lab, s) for i, (_, lab, s) in enumerate(all_specs(3, 3, 0, pal))]
         jobs = [({"d": 0, "subsets": "rotating", "variants": [("SX", 0), ("MX", 2)]}, a),
                 ({"d": 1, "subsets": "pairs", "variants": [("SX", 0), ("MX", 2)], "orders": True, "both_pv": True}, h)]
-        bounds = {"nets": "(n,m)<=(3,3) base+uniform configurations: empty set, 12 singletons, full set, 4 pairs assigned "
+        bounds = {"nets": "(n,m)<=(3,3) base+uniform configurations: empty set, 12 singletons, full set, 3 pairs assigned "
                           "round-robin (all 66 pairs occur across networks); harness list: all subsets of size <= 2 + full, "
                           "all 6 declaration orders of two parameter triples", "palette": pal}
     else:
